@@ -81,6 +81,16 @@ def gen_T20():
     tb = ' '.join(_norm(x) for x in t.body)
     need('loadPluginModule' in tb and 'die()' not in tb and 'loadPluginClass' not in tb,
          'Owner.reload: the try body is no longer the import phase alone')
+    # die() of the old instances: exactly one call site in Owner.reload, inside the else clause (after the import succeeded)
+    dies = [n for n in ast.walk(f) if isinstance(n, ast.Call) and isinstance(n.func, ast.Attribute) and n.func.attr == 'die']
+    dies_else = [n for x in t.orelse for n in ast.walk(x) if isinstance(n, ast.Call) and isinstance(n.func, ast.Attribute) and n.func.attr == 'die']
+    need(len(dies) == 1 and len(dies_else) == 1, 'Owner.reload calls die() outside the else clause of the import try '
+         '(the old instance must not be torn down while the import can still fail): %d call(s), %d in else' % (len(dies), len(dies_else)))
+    # a raising die() is swallowed: `die` is firewalled for every plugin class (MetaFirewall walks the MRO of each base)
+    need(fwd.get('die') == 'None', "IrcCallback.__firewalled__['die'] changed")
+    lt = tree('src/log.py')
+    mf = find_def(lt, '__new__', 'MetaFirewall')
+    need('base.__mro__' in _norm(mf), 'log.MetaFirewall.__new__ no longer merges __firewalled__ along the MRO of the bases')
     eb = ' '.join(_norm(x) for x in t.orelse)
     need('callback.die()' in eb and 'plugin.loadPluginClass(irc, module)' in eb, 'Owner.reload: else clause changed')
     # --- plugin.loadPluginModule: how a requested name is mapped to a directory entry
